@@ -119,6 +119,9 @@ static inline void vrt_relax(void)
 #define pthread_mutex_lock(m)		vrt_mutex_lock(m)
 #define pthread_mutex_trylock(m)	vrt_mutex_trylock(m)
 #define pthread_mutex_unlock(m)		vrt_mutex_unlock(m)
+#define pthread_cond_wait(c, m)		vrt_cond_wait(c, m)
+#define pthread_cond_broadcast(c)	vrt_cond_broadcast(c)
+#define pthread_cond_signal(c)		vrt_cond_signal(c)
 #define pthread_create(t, a, f, g)	vrt_pthread_create(t, a, f, g)
 #define pthread_join(t, r)		vrt_pthread_join(t, r)
 #define pthread_exit(r)			vrt_pthread_exit(r)
